@@ -4,18 +4,39 @@ sys.path.insert(0, os.path.join(HERE, 'lib')); sys.path.insert(0, HERE)
 from checks import wcommon
 
 META = dict(
-    functions=['writer.c: clean_string (metadata value normalisation used by meta_set_value), label_from_string (key normalisation used by meta_new / lookups)'],
-    stubs=['d_string.c -> ds_model (ideal bounded string; refinement is C19)'],
+    functions=['mmd.c: mmd_engine_update_metavalue_for_key', 'writer.c: clean_string (metadata value normalisation used by meta_set_value), label_from_string (key normalisation used by meta_new / lookups)'],
+    stubs=['d_string.c -> ds_model (ideal bounded string; refinement is C19)', 'mmd_engine_has_metadata -> reports the layout (end offset, key start offsets) of the metadata block the harness built'],
     assumptions=['values without backslash in c11_value (backslash-newline joining is a separate documented rule)'],
     outside=['block recognition through the parser, continuation-line joining through real line tokens, CLI -m/-e, <meta> emission'],
 )
+
+def linetype(tier):
+    # metadata line recognition: the classifier asks scan_meta_line about the START OF THE LINE (not about the first token after leading
+    # space), and a line it recognises gets LINE_META; shares the C02 classifier harness, instantiated for the first-token kinds a key can start with
+    from checks import C02
+    LN = 4 if tier == 'quick' else 6
+    out = []
+    for k in ('TEXT_PLAIN', 'NON_INDENT_SPACE', 'TEXT_NUMBER_POSS_LIST'):
+        d = dict(N=LN, T1=k)
+        if k == 'TEXT_NUMBER_POSS_LIST' and tier == 'quick':
+            d['ONE_TOKEN'] = 1
+        out.append(dict(name='c11_linetype_' + k.lower(), src='c02/linetype.c', defs=d, prepare=C02.gen_terminals, pool_off=True,
+                        units=['repo:mmd.c', 'repo:token.c', 'repo:object_pool.c', 'repo:stack.c', 'repo:char.c'],
+                        unwind=LN + 6, unwindset=['main.0:45', 'main.1:45', 'main.2:45'], timeout=600, mem_gb=4, functional=True,
+                        desc='mmd_assign_line_type (first token %s): line-level scanners incl. scan_meta_line are asked about the line start; the line gets a grammar kind' % k))
+    return out
 
 def harnesses(tier):
     N = 5 if tier == 'quick' else 7
     return [
         wcommon.strings('c11_value', 0, N, tier, 'metadata value read back = source value whitespace-normalised, no character lost or added (clean_string vs reference)'),
         wcommon.strings('c11_key', 2, N, tier, 'key normalisation: lower-case, spaces removed, idempotent (label_from_string)'),
-    ]
+    ] + [dict(name='c11_update_k%d_v%d%d' % (uk, v1, v2), src='c11/update.c', defs=dict(UK=uk, VL1=v1, VL2=v2, DS_CAP=24),
+              units=[dict(src='repo:mmd.c', remove=['mmd_engine_has_metadata'], cflags=['-include', 'vh_libc.h']), dict(src='repo:writer.c', cflags=['-include', 'vh_libc.h']), 'repo:token.c', 'repo:stack.c', 'repo:object_pool.c', 'repo:char.c', 'common/ds_model.c'],
+              unwind=26, timeout=900, mem_gb=6, functional=True, replay=False,
+              bounds='two-key metadata block, value lengths %d/%d (driver-enumerated), value bytes, new value 0..2 bytes, separator space/tab symbolic; %s' % (v1, v2, ['update first key', 'update last key', 'add a new key'][uk]),
+              desc='mmd_engine_update_metavalue_for_key: edited key reads the new value, other key and body unchanged')
+         for uk in (0, 1, 2) for (v1, v2) in ((1, 1), (0, 1), (1, 0), (2, 2))] + linetype(tier)
 
 CLAIM = dict(
     text='CBMC compares the real value/key normalisation kernels of the metadata path with the documented reference on every string within '
